@@ -247,6 +247,6 @@ theorem plain_text_verbatim (o : Ops) (c : Core) (el out0 ty : Str)
 
 /-- non-vacuity: an Atom `type="text"` value that LOOKS like markup is neither guessed to be HTML nor handed to the (here: destructive) sanitizer / resolver -/
 example : (contentOutput { base := ⟨fun _ r => r, fun u => u, fun _ r => r⟩, join := (fun _ u => u), fix := id, loose := false, looksHtml := (fun _ => true), sanitize := (fun _ _ => Mixin.S "CLEAN"), resolveMarkup := (fun _ _ _ => Mixin.S "RESOLVED") }
-    { version := S "atom10", cp := some ⟨S "text/plain", none, "", false⟩ } (S "title") (S "<b>x</b> &amp; y")) = (some (S "text/plain"), S "<b>x</b> &amp; y") := by decide +kernel
+    { version := S "atom10", cp := some { type := S "text/plain", lang := none, base := "", base64 := false } } (S "title") (S "<b>x</b> &amp; y")) = (some (S "text/plain"), S "<b>x</b> &amp; y") := by decide +kernel
 
 end FeedVerif.Mixin
